@@ -135,6 +135,18 @@ def run_case(case, ctx):
             edzed.OutputFunc('ofc', func=lambda v: v, stop_data={'value': 'final'},
                              on_success=edzed.Event(objs['entry'], DYN('put')), on_error=None)
             ctx.count('cleanup_events')
+        if case.get('stopmode') == 'ctrl_then_error':
+            class Failing(edzed.SBlock):
+                def init_regular(self):
+                    self.set_output(0)
+
+                def _event(self, etype, data):
+                    raise RuntimeError('vf: handler failure right after the stop request')
+            Failing('failing')
+            objs['trig'] = edzed.Input('trig', initdef=False)
+            edzed.FuncBlock('trign', func=lambda x: bool(x), on_output=[
+                edzed.Event('_ctrl', 'shutdown', efilter=edzed.not_from_undef),
+                edzed.Event('failing', 'x', efilter=edzed.not_from_undef)]).connect('trig')
         # boundary recorder on every Repeat block (record and delegate)
         for r in repeats:
             orig = r.event
@@ -192,6 +204,14 @@ def run_case(case, ctx):
         state['outputs_before_stop'] = [r.output for r in repeats]
         state['alive_before_stop'] = sim.alive()
         hist.log('stop_called')
+        if case.get('stopmode') == 'ctrl_then_error':
+            # one output change of a combinational block sends two events: a 'shutdown' control
+            # event and an event to a block whose handler fails - a stop request and an error
+            # within one synchronous stretch of the simulation task
+            ctx.count('shutdown_event_followed_by_handler_error')
+            edzed.ExtEvent(objs['trig']).send(True)
+            await asyncio.sleep(0)
+            await asyncio.sleep(0)
         if case.get('stopmode') == 'double':
             # the stop is requested twice (e.g. a 'shutdown' control event and then the
             # application's own shutdown() while the clean-up is already in progress)
@@ -403,6 +423,137 @@ def run_one(case, ctx, enumerated=False):
 STRUCTURES = ['explicit', 'implicit', 'chain', 'byname', 'implicit_chain']
 
 
+def run_custom_etype(case, ctx):
+    """
+    Event types that are objects (subclasses of edzed.EventType) instead of strings: compared by
+    value (a dataclass: equal, distinct, unhashable instances), frozen (hashable) or by identity.
+    """
+    import dataclasses
+    import edzed
+    kind = case['kind']
+    if kind == 'eq':
+        @dataclasses.dataclass
+        class Alarm(edzed.EventType):
+            level: int
+    elif kind == 'frozen':
+        @dataclasses.dataclass(frozen=True)
+        class Alarm(edzed.EventType):
+            level: int
+    else:
+        class Alarm(edzed.EventType):
+            def __init__(self, level):
+                self.level = level
+    configured = Alarm(2)
+    sent = configured if kind == 'identity' else Alarm(2)
+    other = Alarm(3)
+    log = []
+
+    def build():
+        class Dst(edzed.SBlock):
+            def init_regular(self):
+                self.set_output(0)
+
+            def _event(self, etype, data):
+                log.append((round(asyncio.get_running_loop().time() - 1000.0, 6), etype,
+                            data.get('repeat'), data.get('value'), data.get('orig_source')))
+        dst = Dst('dst')
+        flt = edzed.not_from_undef
+        if case['structure'] == 'implicit':
+            src = edzed.Input('src', initdef='i', on_output=edzed.Event(
+                dst, sent, repeat=case['interval'], count=case['count'], efilter=flt))
+            rpt = next(iter(edzed.get_circuit().getblocks(edzed.Repeat)))
+        else:
+            rpt = edzed.Repeat('r1', dest=dst, etype=configured, interval=case['interval'],
+                               count=case['count'])
+            src = edzed.Input('src', initdef='i', on_output=edzed.Event('r1', sent, efilter=flt))
+        oth = edzed.Input('oth', initdef='i', on_output=edzed.Event(rpt, other, efilter=flt))
+        return {'src': src, 'oth': oth, 'rpt': rpt}
+
+    async def drive(sim, objs):
+        await asyncio.sleep(0.25)
+        edzed.ExtEvent(objs['src']).send('v1')
+        await asyncio.sleep(case['interval'] * 1.5)
+        edzed.ExtEvent(objs['oth']).send('x1')          # another type: ignored
+        await asyncio.sleep(case['interval'] * (case['count'] + 1))
+        case_out = objs['rpt'].output
+        log.append(('output', case_out))
+        return sim.alive()
+    out = harness.run_sim(build, drive, drain=5.0)
+    where = f"event type object, {case}"
+    if out['exc'] is not None or not out.get('started'):
+        raise core.Violation('harness-run-exception' if out['exc'] is not None else 'start-failed',
+                             f"{where}: {out['exc']!r} {out['sim'].circuit.error!r}")
+    ctx.count('custom_event_type_cases')
+    if out['result'] is not True:
+        raise core.Violation('simulation-aborted', f"{where}: {out['sim'].circuit.error!r}")
+    got = [e for e in log if e[0] != 'output']
+    want = [(round(0.25 + k * case['interval'], 6), k) for k in range(case['count'] + 1)]
+    if [(e[0], e[2]) for e in got] != want or any(e[1] != configured or e[3] != 'v1' for e in got):
+        raise core.Violation(
+            'repetition-wrong', f"{where}: deliveries (time, type, repeat, value, orig_source) "
+            f"{got}, expected (time, repeat) {want} of type {configured!r} with value 'v1'")
+    if log[-1] != ('output', case['count']):
+        raise core.Violation('output-not-repeat-number', f"{where}: {log[-1]}")
+    ctx.count('after_stop_checked')
+
+
+def run_failed_start(case, ctx):
+    """
+    The simulation ends before its initialisation is complete (a block stays uninitialised)
+    after a Repeat has already forwarded an event sent during the initialisation: nothing may
+    be re-sent once the simulation has stopped.
+    """
+    import edzed
+    log = []
+
+    def build():
+        class Dst(edzed.SBlock):
+            def init_regular(self):
+                self.set_output(0)
+
+            def _event(self, etype, data):
+                log.append((asyncio.get_running_loop().time(), data.get('repeat')))
+        dst = Dst('dst')
+        if case['structure'] == 'implicit':
+            edzed.Input('src', initdef='init', on_output=edzed.Event(
+                dst, 'put', repeat=case['interval'], count=case['count']))
+        else:
+            edzed.Repeat('r1', dest=dst, etype='put', interval=case['interval'], count=case['count'])
+            edzed.Input('src', initdef='init', on_output=edzed.Event('r1', 'put'))
+        # never initialised: no default, nothing saved, nobody sends it a value
+        edzed.Input('late', persistent=case['persistent'])
+        if case.get('slow'):
+            class Slow(edzed.AddonAsync, edzed.SBlock):
+                async def init_async(self):
+                    await asyncio.sleep(2.25)
+                    self.set_output(1)
+            Slow('slow', init_timeout=5)
+        return {}
+
+    async def drive(_sim, _objs):
+        raise core.Inconclusive("C18: the start with an uninitialised block succeeded")
+    out = harness.run_sim(build, drive, drain=12.0,
+                          storage={} if case['storage'] else None)
+    where = f"failed start {case}"
+    if isinstance(out['exc'], core.Inconclusive):
+        raise out['exc']
+    if out['exc'] is not None:
+        raise core.Violation('harness-run-exception', f"{where}: {out['exc']!r}")
+    loop = out['loop']
+    end_vt = loop.after_main['vt']
+    ctx.count('failed_start_runs')
+    ctx.count('after_stop_checked')
+    if not log:
+        raise core.Violation('event-not-forwarded', f"{where}: the init-time event was not forwarded")
+    late = [e for e in log if e[0] > end_vt + 1e-9]
+    tasks = [t.get_name() for t in loop.after_main['tasks'] if loop.task_is_edzed(t)]
+    if late or tasks or loop.after_main['timers']:
+        raise core.Violation(
+            'leftover-after-stop' if not late else 'repeated-after-stop',
+            f"{where}: simulation ended at {end_vt}; deliveries after that {late[:4]}; pending "
+            f"tasks {tasks}, {len(loop.after_main['timers'])} block timers")
+
+
 def gen(ctx):
     quick = ctx.tier == 'quick'
     idx = 0
@@ -445,7 +596,7 @@ def gen(ctx):
         if rng.random() < 0.25:
             case['latency'] = rng.choice([1e-4, 2e-3])
         if rng.random() < 0.25:
-            case['stopmode'] = 'double'
+            case['stopmode'] = rng.choice(['double', 'double', 'ctrl_then_error'])
         if structure == 'implicit' and rng.random() < 0.4:
             case['strip_source'] = True
         if structure in ('explicit', 'byname', 'chain') and rng.random() < 0.3:
@@ -458,8 +609,46 @@ def gen(ctx):
 def run_shard(ctx):
     for case, enumerated in gen(ctx):
         run_one(case, ctx, enumerated)
+    idx = 0
+    for structure in ('implicit', 'explicit'):
+        for persistent, storage in ((True, True), (False, True), (True, False), (False, False)):
+            for slow in (False, True):
+                for interval, count in ((0.5, None), (1.0, 3), (4.0, None)):
+                    idx += 1
+                    if idx % ctx.nshards != ctx.shard:
+                        continue
+                    if persistent and storage and not slow:
+                        cc = {'custom_etype': True, 'structure': structure, 'interval': interval,
+                              'count': count or 2, 'kind': ['eq', 'frozen', 'identity'][idx % 3]}
+                        try:
+                            run_custom_etype(cc, ctx)
+                        except core.Violation as v:
+                            ctx.violation(cc, v.key, v.msg)
+                        ctx.case_done(cc, True, None, enumerated=True)
+                    case = {'failed_start': True, 'structure': structure, 'slow': slow,
+                            'persistent': persistent, 'storage': storage, 'interval': interval,
+                            'count': count}
+                    try:
+                        run_failed_start(case, ctx)
+                    except core.Violation as v:
+                        ctx.violation(case, v.key, v.msg)
+                    ctx.case_done(case, True, None, enumerated=True)
     ctx.exhaustive = True
 
 
 def replay(rep, ctx):
+    if rep['case'].get('custom_etype'):
+        try:
+            run_custom_etype(rep['case'], ctx)
+        except core.Violation as v:
+            ctx.violation(rep['case'], v.key, v.msg)
+        ctx.case_done(rep['case'], True)
+        return
+    if rep['case'].get('failed_start'):
+        try:
+            run_failed_start(rep['case'], ctx)
+        except core.Violation as v:
+            ctx.violation(rep['case'], v.key, v.msg)
+        ctx.case_done(rep['case'], True)
+        return
     run_one(rep['case'], ctx)
